@@ -410,6 +410,34 @@ func init() {
 				src := c04Tokens[k/(n*n)] + " " + c04Tokens[(k/n)%n] + " " + c04Tokens[k%n]
 				c04Check(c, src, c.R)
 			}},
+			{Name: "odd-environments", N: func(tier string) uint64 {
+				if tier == "thorough" {
+					return 200000
+				}
+				return 3000
+			}, Run: c04Odd},
+			{Name: "numeric-edges", N: func(tier string) uint64 {
+				if tier == "thorough" {
+					return 400000
+				}
+				return 12000
+			}, Run: func(c *runner.Ctx, idx uint64) {
+				// literals from the edges of the int domain and around the
+				// optimizer's and the VM's size limits, in every position that
+				// consumes a number
+				r := c.R
+				edges := []string{"0", "1", "-1", "2", "9223372036854775807", "9223372036854775806", "-9223372036854775807", "(-9223372036854775807 - 1)", "4611686018427387904", "-4611686018427387904",
+					"999999", "1000000", "1000001", "65535", "65536", "2147483648", "4294967296", "9223372036854775808", "1e18", "1e19", "0.5", "-0", "1e-320", "1e308"}
+				e := func() string { return r.Pick(edges) }
+				forms := []string{"%s..%s", "len(%s..%s)", "A in %s..%s", "X not in %s..%s", "(%s..%s)[0]", "Ints[%s:%s]", "S[%s:%s]", "(1..3)[%s:%s]", "Ints[%s] + %s", "%s + %s", "%s - %s", "%s * %s", "%s / %s", "%s %% %s", "%s ** %s",
+					"[%s, %s]", "A in [%s, %s]", "FnI(%s) + FnU8(%s)", "FnF(%s / %s)", "FnI64(%s * %s)", "Fast(%s, %s)", "%s < %s", "%s == %s", "map(%s..%s, {#})", "all(%s..%s, {# > 0})", "count(1..3, {# in %s..%s})",
+					"{\"a\": %s}.a + %s", "P ? %s : %s", "-%s + -%s", "%s in 1..3 or A in %s..2", "filter(%s..%s, {# %% 2 == 0})"}
+				src := fmt.Sprintf(r.Pick(forms), e(), e())
+				if r.Chance(1, 4) {
+					src = fmt.Sprintf(r.Pick([]string{"len(%s)", "[%s]", "(%s) == nil", "FnAny(%s)", "not (%s)", "[%s][0]"}), src)
+				}
+				c04Check(c, src, r)
+			}},
 			{Name: "soup", N: func(tier string) uint64 {
 				if tier == "thorough" {
 					return 6000000
